@@ -23,11 +23,21 @@ Theorem history_exact_sqlite : forall ops0 l i,
 Proof. exact (history_is_log true). Qed.
 Print Assumptions history_exact_sqlite.
 
+(* in-memory: the transition is atomic (lock facts) AND a writer's `self._history[i].append(e)` is one atomic call
+   (mem_history_append_atomic); writers that read-extend-store are two steps each (HFlush = read, HStore = store) *)
 Theorem history_exact_mem : forall ops0 l i,
-  let w := hist_run mem_transition_atomic (hw_of ops0) l in
-  hpend w = [] -> get_history w i = of_inv i (stamped (log (csys (hcw w)))).
-Proof. exact (history_is_log true). Qed.
+  let w := hist_run2 mem_transition_atomic mem_history_append_atomic (hw2_of ops0) l in
+  hpend (hbase w) = [] -> hinflight w = [] ->
+  get_history (hbase w) i = of_inv i (stamped (log (csys (hcw (hbase w))))).
+Proof. exact history_is_log_mem. Qed.
 Print Assumptions history_exact_mem.
+
+Theorem nonatomic_append_refuted :
+  exists l, let w := hist_run2 true false (hw2_of [ORegister 0 None]) l in
+            hpend (hbase w) = [] /\ hinflight w = [] /\
+            map he_status (of_inv 0 (stamped (log (csys (hcw (hbase w)))))) = [RUNNING; PENDING; REGISTERED] /\
+            map he_status (get_history (hbase w) 0) = [RUNNING; REGISTERED].
+Proof. exact nonatomic_append_loses_entry. Qed.
 
 (* ... it is a path of the documented graph from REGISTERED to the current status *)
 Theorem history_is_path_to_current_status : forall ops0 l i,
